@@ -145,6 +145,77 @@ fn level_strategy(tier: Tier) -> BoxedStrategy<AtLevel> {
     (crate::gen::select(levels), random_strategy(tier)).prop_map(|(level, case)| AtLevel { level, case }).boxed()
 }
 
+/// Consecutive one-shot calls on one thread whose arguments are NEARLY identical (same length, long common prefix,
+/// a difference near the end), then the first one again: whatever a call remembers must not leak into the next.
+#[derive(Clone, Debug, Serialize, Deserialize)]
+pub struct SeqCase {
+    /// 0 = derive_key contexts vary, 1 = keyed_hash keys vary, 2 = inputs vary (hash), 3 = derive_key inputs vary
+    pub kind: u8,
+    pub base_len: u16,
+    pub seed: u64,
+    /// (distance of the changed byte from the end, value xor-ed in)
+    pub variants: Vec<(u16, u8)>,
+    pub other_len: u16,
+}
+
+pub fn check_seq(c: &SeqCase) -> Result<(), String> {
+    let n = core::cmp::max(1, c.base_len as usize);
+    let mut base = vec![0u8; n];
+    gen::fill_random(&mut base, c.seed);
+    if c.kind % 4 == 0 {
+        for b in base.iter_mut() {
+            *b = 0x21 + *b % 0x5d; // printable ASCII: a context is a &str
+        }
+    }
+    let other = Content { kind: 3, seed: c.seed ^ 1 }.expand(c.other_len as usize);
+    let mut calls: Vec<Vec<u8>> = vec![base.clone()];
+    for (d, x) in &c.variants {
+        let mut v = base.clone();
+        let i = n - 1 - (*d as usize % n);
+        let x = if c.kind % 4 == 0 { (*x % 0x1f) | 1 } else { *x | 1 };
+        v[i] ^= x;
+        if c.kind % 4 == 0 && !(0x20..0x7f).contains(&v[i]) {
+            v[i] = b'~';
+        }
+        calls.push(v);
+    }
+    calls.push(base.clone());
+    for (k, arg) in calls.iter().enumerate() {
+        let (got, want): ([u8; 32], [u8; 32]) = match c.kind % 4 {
+            0 => {
+                let ctx = std::str::from_utf8(arg).map_err(|e| format!("ENGINE: {}", e))?;
+                (blake3::derive_key(ctx, &other), b3spec::root(&b3spec::KeyFlags::derive_key(arg), &other).hash())
+            }
+            1 => {
+                let mut key = [0u8; 32];
+                for (j, b) in key.iter_mut().enumerate() {
+                    *b = arg[j % arg.len()] ^ (j as u8);
+                }
+                if k > 0 && k + 1 < calls.len() {
+                    key[31 - (k % 32)] ^= 0x80;
+                }
+                (*blake3::keyed_hash(&key, &other).as_bytes(), b3spec::root(&b3spec::KeyFlags::keyed(&key), &other).hash())
+            }
+            2 => (*blake3::hash(arg).as_bytes(), b3spec::root(&b3spec::KeyFlags::hash(), arg).hash()),
+            _ => (blake3::derive_key("C01 related-sequences context", arg), b3spec::root(&b3spec::KeyFlags::derive_key(b"C01 related-sequences context"), arg).hash()),
+        };
+        eq_bytes(&format!("call #{} of {} nearly identical one-shot calls in a row (kind {}, {} bytes, arguments differ only near the end)", k, calls.len(), c.kind % 4, n), &got, &want)?;
+    }
+    Ok(())
+}
+
+fn seq_strategy(_tier: Tier) -> BoxedStrategy<SeqCase> {
+    (
+        0u8..4,
+        prop_oneof![2 => 1u16..=64, 4 => 65u16..=300, 2 => 1000u16..=1100, 1 => 2000u16..=5000],
+        any::<u64>(),
+        prop::collection::vec((prop_oneof![3 => 0u16..=8, 1 => any::<u16>()], any::<u8>()), 1..=4),
+        prop_oneof![Just(0u16), 1u16..=100, 1000u16..=1100],
+    )
+        .prop_map(|(kind, base_len, seed, variants, other_len)| SeqCase { kind, base_len, seed, variants, other_len })
+        .boxed()
+}
+
 pub fn subs() -> Vec<Box<dyn DynSub>> {
     vec![
         Box::new(EnumSub::<OneShot> {
@@ -174,6 +245,16 @@ pub fn subs() -> Vec<Box<dyn DynSub>> {
             strategy: level_strategy,
             classify: |c| classify(&c.case).tag(true, crate::levels::cfg_tag(c.level)),
             check: check_at_level,
+            known: None,
+            crumb: false,
+        }),
+        Box::new(PropSub::<SeqCase> {
+            name: "related-sequences",
+            rule: "proptest: 3-6 consecutive one-shot calls on one thread whose varying argument (derive_key context, keyed_hash key, hash input, derive_key input) has the same length and a long common prefix and differs in one byte near the end, ending with the first argument again; every result vs spec (whatever a call caches or remembers must not leak into the next); non-trivial = argument longer than 64 bytes",
+            cases: (16000, 200000),
+            strategy: seq_strategy,
+            classify: |c| Classes::new(c.base_len > 64).tag(c.kind % 4 == 0, "contexts-vary").tag(c.kind % 4 == 1, "keys-vary").tag(c.kind % 4 == 2, "inputs-vary(hash)").tag(c.kind % 4 == 3, "inputs-vary(derive_key)").tag(c.base_len > 1024, "argument>1chunk"),
+            check: check_seq,
             known: None,
             crumb: false,
         }),
